@@ -634,3 +634,62 @@ M("C04", "init: ef without start", SAS, "            sas->ef[i] = ent->start + e
 M("C04", "prune: compares ef of next phone", SAS, "        if (nf > sas->ef[i])\n            continue;", "        if (i + 1 < sas->n_phones && nf > sas->ef[i + 1])\n            continue;", "PROV.A5-constraints")
 M("C04", "transition: start bound of own phone", SAS, "        if (nf < sas->sf[i + 1])\n            continue;", "        if (nf < sas->sf[i])\n            continue;", "PROV.A5-constraints")
 M("C04", "transition: in_history carried", SAS, "            hmm_enter(nhmm, newphone_score, hmm_out_history(hmm), nf);", "            hmm_enter(nhmm, newphone_score, hmm_in_history(hmm), nf);", "PROV.A5-constraints")
+
+FI = "src/fe_interface.c"
+FSG = "src/fe_sigproc.c"
+# ---- C06 ----------------------------------------------------------------------
+M("C06", "fe: stale assert returns", FI, "        *spch += *inout_nsamps;\n    }\n    fe->num_overflow_samps += (int)*inout_nsamps;", "        *spch += *inout_nsamps;\n    }\n    assert(*inout_nsamps <= MAX_INT16);\n    fe->num_overflow_samps += (int)*inout_nsamps;", "GUARD.F4-size-asserts")
+M("C06", "fe: int16 append one short", FI, """        for (i = 0; i < *inout_nsamps; ++i) {
+            int16 sample = (*spch)[i];""", """        for (i = 0; i + 1 < *inout_nsamps; ++i) {
+            int16 sample = (*spch)[i];""", "TWIN.F1-encodings")
+M("C06", "fe: float read_overflow wrong dest", FI, """        memcpy(fe->overflow_samps + fe->num_overflow_samps,
+               *spch, offset * sizeof(float32));
+        *spch += offset;
+        *inout_nsamps -= offset;""", """        memcpy(fe->overflow_samps + fe->num_overflow_samps + 1,
+               *spch, offset * sizeof(float32));
+        *spch += offset;
+        *inout_nsamps -= offset;""", "TWIN.F1-encodings")
+M("C06", "fe: int16 create reads from spch", FI, "            const int16 *inptr = *spch - (fe->frame_size - fe->frame_shift);", "            const int16 *inptr = *spch - (fe->frame_size - fe->frame_shift) + 1;", "TWIN.F1-encodings")
+M("C06", "fe: float path forgets nsamps", FI, """        memcpy(fe->overflow_samps + fe->num_overflow_samps,
+               orig, n_overflow * sizeof(float32));
+        fe->num_overflow_samps += n_overflow;
+        /* Advance the input pointers. */
+        if (n_overflow > *spch - orig) {
+            n_overflow -= (int)(*spch - orig);
+            *spch += n_overflow;
+            *inout_nsamps -= n_overflow;
+        }""", """        memcpy(fe->overflow_samps + fe->num_overflow_samps,
+               orig, n_overflow * sizeof(float32));
+        fe->num_overflow_samps += n_overflow;
+        /* Advance the input pointers. */
+        if (n_overflow > *spch - orig) {
+            n_overflow -= (int)(*spch - orig);
+            *spch += n_overflow;
+        }""", "TWIN.F1-encodings")
+M("C06", "fe: scale 32767", "include/soundswallower/fe.h", "#define FLOAT32_SCALE 32768.0", "#define FLOAT32_SCALE 32767.0", "TABLE.F2-scale")
+M("C06", "fe: shift_frame_float32 offset", FSG, """            fe->spch[i + offset] = sample * FLOAT32_SCALE;
+        }
+    }
+
+    fe_spch_to_frame(fe, offset + len);
+    return len;""", """            fe->spch[i + offset - 1] = sample * FLOAT32_SCALE;
+        }
+    }
+
+    fe_spch_to_frame(fe, offset + len);
+    return len;""", "TWIN.F1-encodings")
+M("C06", "fe: create skip guard (seed C06-1)", FI, "    if (fe->num_overflow_samps > 0) {\n        if (encoding == FE_PCM16) {", "    if (n_overflow > 0) {\n        if (encoding == FE_PCM16) {", "PAIR.I1-carry-over")
+M("C06", "fe: compaction by one shift (seed C06-2 shape)", FI, "            fe->overflow_samps + orig_n_overflow - fe->num_overflow_samps,", "            fe->overflow_samps + fe->frame_shift,", "PAIR.I1-carry-over")
+M("C06", "fe: orig_n_overflow taken after first frame", FI, """    orig_spch = *(void **)inout_spch;
+    orig_n_overflow = fe->num_overflow_samps;""", """    orig_spch = *(void **)inout_spch;""", "PAIR.I1-carry-over")
+M("C06", "fe: read_overflow forgets shift", FI, "    fe_read_frame_float32(fe, fe->overflow_samps, fe->frame_size);\n    fe->num_overflow_samps -= fe->frame_shift;", "    fe_read_frame_float32(fe, fe->overflow_samps, fe->frame_size);", "PAIR.I1-carry-over")
+M("C06", "fe: fe_end keeps count", FI, "    /* reset overflow buffers... */\n    fe->num_overflow_samps = 0;\n", "", "PAIR.I1-carry-over")
+M("C06", "fe: frame_count off by one", FI, "    frame_count = 1\n        + (int)((*inout_nsamps + fe->num_overflow_samps - fe->frame_size)\n                / fe->frame_shift);", "    frame_count = (int)((*inout_nsamps + fe->num_overflow_samps - fe->frame_size)\n                / fe->frame_shift);", "PAIR.I2-frames")
+M("C06", "fe: loop nsamps not reduced", FI, "        *inout_nsamps -= shift;\n    }", "    }", "PAIR.F3-consume")
+M("C06", "fe benign: float branch uses a loop", FI, """        memcpy(fe->overflow_samps + fe->num_overflow_samps,
+               *spch, *inout_nsamps * (sizeof(float32)));
+        *spch += *inout_nsamps;""", """        for (i = 0; i < *inout_nsamps; ++i) {
+            float32 sample = (*spch)[i];
+            fe->overflow_samps[fe->num_overflow_samps + i] = sample;
+        }
+        *spch += *inout_nsamps;""", kind="benign")
